@@ -56,4 +56,6 @@ def nonceDrawPublic : Backend → Nat
   | .v3lc => 0
   | .v4 => 0
   | .v4s => 0
+def tsMin : Int := -377705023201000000000
+def tsMax : Int := 253402207200999999999
 end PM.Extracted
